@@ -4,4 +4,4 @@ From Tele Require Import Lib.Bytes Lib.BytesN Model.DecodeStack Model.Layout Mod
 Extraction Language OCaml.
 Extraction "layout_model.ml" len get32 place place_ok_b hash hash_ref mapped_header spec_header cut_nul
   create step step_f race pc_tag grace gpc_tag run_ops wf_file spec_read spec_records spec_decode spec_encode meta_kv decode_stack
-  last_wins parse twin_clash_from limit_of zeros N.ltb N.leb N.add N.sub N.modulo N.div Z.of_N.
+  last_wins parse twin_clash_from limit_of zeros N.ltb N.leb N.add N.sub N.modulo N.div N.mul Z.of_N.
